@@ -4,7 +4,10 @@ mod mapops;
 use tvh_common::*;
 
 fn main() {
-    silence_panics();
+    guarded_main(run);
+}
+
+fn run() {
     let args = Args::from_env();
     match args.cmd() {
         "replay-map" => mapops::replay(&args),
